@@ -65,7 +65,7 @@ def run(ctx):
         pos["mc_lowrate"] = pool.submit(mc, ctx, "mc_lowrate", W2, "{1}", "{1, 2}", "{2, 3}", "{0, 1}", "{1, 3, 5}", 10, relax=True)
     else:
         pos["mc_main"] = pool.submit(mc, ctx, "mc_main", W3, "{1, 2}", "{1, 2, 3}", "{3, 4, 5}", "{0, 1, 2}", "{1, 2, 3}", 12, workers=8)
-        pos["mc_main_1w"] = pool.submit(mc, ctx, "mc_main_1w", "{w1}", "{1, 2, 3}", "{1, 2, 3}", "{2, 3, 4, 5, 6}", "{0, 1}", "{1, 2, 3, 4}", 20)
+        pos["mc_main_1w"] = pool.submit(mc, ctx, "mc_main_1w", "{w1}", "{1, 2, 3}", "{1, 2, 3}", "{4, 5, 6}", "{0, 1}", "{1, 2, 3, 4}", 20)
         pos["mc_intervals"] = pool.submit(mc, ctx, "mc_intervals", W2, "{1, 2}", "{1, 2}", "{3, 4}", "{0, 1}", "{1, 2, 3}", 6, history=True,
                                           invs="TypeOK UpperVQ UpperIntervals NotStarved", workers=wk)
         pos["mc_lowrate"] = pool.submit(mc, ctx, "mc_lowrate", W3, "{1, 2}", "{1, 2}", "{2, 3}", "{0, 1}", "{1, 3, 5}", 12, relax=True, workers=wk)
@@ -105,11 +105,14 @@ def gen_and_replay(ctx, q):
 def run_impl(ctx, q, pool, pos, neg):
     f_gen = pool.submit(gen_and_replay, ctx, q)
     # 3. the real code on the virtual clock: multiplex scenarios, and the server's own wiring of the user's valve
-    nfiles = 3 if q else 6
+    nfiles = 2 if q else 6
     # (one after the other: lib.make_overlay writes one overlay.json per check)
     us = lib.run_go(ctx, "server", "TestVerifC19User", timeout=1500)
     f_user = pool.submit(validate, ctx, os.path.join(us["_out_dir"], "trace_user.ndjson"), "trace_user")
-    tr = lib.run_go(ctx, "multiplex", "TestVerifC19Trace", env={"VERIF_C19_FILES": nfiles}, timeout=1500)
+    # the same test process also replays the model's Take arithmetic on the library Cloak calls (TokenBucketGen behaviours)
+    behaviours = f_gen.result()
+    inp = lib.write_lines(os.path.join(ctx.work, "c19_bucket_behaviours.ndjson"), behaviours)
+    tr = lib.run_go(ctx, "multiplex", "TestVerifC19Trace", env={"VERIF_C19_FILES": nfiles, "VERIF_IN": inp}, timeout=1500)
     lib.collect_go(ctx, tr)
     lib.collect_go(ctx, us)
     go_keys = sorted({v["key"] for v in tr.get("violations", []) + us.get("violations", [])})
@@ -119,13 +122,9 @@ def run_impl(ctx, q, pool, pos, neg):
         us["stats"].get("scenarios", 0), us["stats"].get("trace_events", 0), go_keys))
     if st.get("dead_scenarios", 0) or us["stats"].get("dead_scenarios", 0):
         raise lib.Inconclusive("a scenario moved no data: %s" % tr.get("notes"))
-    # 3b. the model's Take arithmetic against the library Cloak calls
-    behaviours = f_gen.result()
-    inp = lib.write_lines(os.path.join(ctx.work, "c19_bucket_behaviours.ndjson"), behaviours)
-    bk = lib.run_go(ctx, "multiplex", "TestVerifC19Bucket", env={"VERIF_IN": inp})
-    lib.collect_go(ctx, bk)
-    if bk["stats"].get("drift", 0):
-        raise lib.Inconclusive("TokenBucket.tla and github.com/juju/ratelimit disagree on Take: %s" % (bk.get("notes") or [])[:3])
+    if st.get("drift", 0) or st.get("bucket_behaviours", 0) != len(behaviours):
+        raise lib.Inconclusive("TokenBucket.tla and github.com/juju/ratelimit disagree on Take (%s of %d behaviours replayed): %s" % (
+            st.get("bucket_behaviours"), len(behaviours), (tr.get("notes") or [])[:3]))
     ctx.log("bucket replay: %d behaviours x 4 clock concretisations agree with ratelimit.Bucket" % len(behaviours))
     # 4. TLC validates the recorded traces against the bound (every interval, one pass)
     vals = [(os.path.join(us["_out_dir"], "trace_user.ndjson"), f_user)]
@@ -155,7 +154,8 @@ def run_impl(ctx, q, pool, pos, neg):
                 "key": key,
                 "what": "TLC: invariant %s of TokenBucketTrace fails on the recorded execution of scenario %s at event %s "
                         "(q = %s, dpre = %s, parameters %s)" % (v.violated, scn, ev, cex_field(last, "q"), cex_field(last, "dpre"), reset),
-                "replay": {"scenario": scenario_of(tr, scn), "scenario_id": scn, "tlc_state": last, "trace_tail": lines[max(0, line - 12):line]}})
+                "replay": dict({"user_scenario": {"id": scn}} if p.endswith("trace_user.ndjson") else {"scenario": scenario_of(tr, scn)},
+                               scenario_id=scn, tlc_state=last, trace_tail=lines[max(0, line - 12):line])})
         else:
             raise lib.Inconclusive("recorded trace %s is not well-formed for TokenBucketTrace (rejected at line %s): %s" % (
                 p, v.rejected_at, lines[v.rejected_at - 1] if v.rejected_at and v.rejected_at <= len(lines) else "?"))
@@ -173,8 +173,8 @@ def run_impl(ctx, q, pool, pos, neg):
             raise lib.Inconclusive("negative configuration %s was not refuted by TLC (violated=%s): the bound is vacuous" % (tag, r.violated))
         ctx.log("%s: refuted (%s) after %d states" % (tag, r.violated, r.distinct))
     cov = {
-        "evaluations": tr["evaluations"] + us["evaluations"] + bk["evaluations"],
-        "distinct_nontrivial": tr["distinct_nontrivial"] + us["distinct_nontrivial"] + bk["distinct_nontrivial"],
+        "evaluations": tr["evaluations"] + us["evaluations"],
+        "distinct_nontrivial": tr["distinct_nontrivial"] + us["distinct_nontrivial"],
         "rule": "one evaluation = one scenario (rates tx/rx from {2e3,2e4,1e5} B/s, 1-3 sessions x 1-4 connections x 1-3 streams sharing "
                 "one valve, write sizes {1,100,1400,16000, 3 frames}, backlogged / bursty / mixed writers, TLS-record or message links, "
                 "3 AEADs, 10-40 virtual seconds) run on the real Session/switchboard/ratelimit code in a synctest bubble; every pair of "
@@ -192,7 +192,7 @@ def run_impl(ctx, q, pool, pos, neg):
                             "1-%d waiters up to the clock horizon; the recorded scenarios are a sample" % (2 if q else 3),
         "negative_configs_refuted": sorted(neg.keys()),
         "checker_cmd": "tlc TokenBucket.tla (TokenBucket_mc.cfg) / TokenBucketTrace.tla + go test -run TestVerifC19Trace",
-        "harness_stats": {"multiplex": st, "server_activeuser": us["stats"], "bucket_replay": bk["stats"]},
+        "harness_stats": {"multiplex": st, "server_activeuser": us["stats"]},
     }
     return lib.finish(ctx, LEVEL, cov, ASSUME)
 
